@@ -1,6 +1,6 @@
 \* Negative control / finding F7: with the silent in-place tombstone collection of mergeValueForKey
-\* modelled as the code does it (Ideal = FALSE) TLC finds a stale watcher. This configuration is
-\* EXPECTED to violate WatcherNeverStale.
+\* modelled as the code did it before its fix (Ideal = FALSE) TLC finds a stale watcher. This
+\* configuration is EXPECTED to violate WatcherNeverStale.
 CONSTANTS
   N = 2
   NI = 1
@@ -16,6 +16,11 @@ CONSTANTS
   AllowGarbage = FALSE
   AllowPartition = FALSE
   AllowJunkPP = FALSE
+  GateNodes = {}
+  InboxCap = 1
+  VersionTest = TRUE
+  MaxDel = 0
+  ObsoleteTimeout = 1
   ConsumeNet = FALSE
   Ideal = FALSE
   Ghost = TRUE
